@@ -66,5 +66,48 @@ __CPROVER_ensures(__CPROVER_return_value == 0 || (__CPROVER_return_value == -1 &
 __CPROVER_ensures(__CPROVER_return_value == 0 ==> (xv_strtol_val >= 0 && xv_strtol_val <= 65535 && *port == XV_HTONS((uint16_t)xv_strtol_val)))
 __CPROVER_ensures(__CPROVER_return_value == -1 ==> *port == __CPROVER_old(*port))
 ;
+
+/* ---- xcm_addr_is_valid / xcm_addr_is_supported agree with the parsers (C12) */
+/* ghost: which parser ran last (index into the list below) and what it returned; xv_proto_sel = which protocol name
+ * xcm_addr_parse_proto produced (0 tcp, 1 btcp, 2 ux, 3 uxf, 4 utls, 5 tls, 6 btls, 7 sctp, 8 something else) */
+int xv_parser_ran, xv_parser_rv, xv_parser_calls, xv_proto_sel;
+#define XV_PARSER_CONTRACT(fn, idx, T2, a2, T3, a3) \
+    int fn(const char *addr_s, T2 a2, T3 a3) \
+    __CPROVER_requires(1) \
+    __CPROVER_assigns(xv_errno, xv_parser_ran, xv_parser_rv, xv_parser_calls) \
+    __CPROVER_ensures(xv_parser_ran == (idx) && xv_parser_calls == __CPROVER_old(xv_parser_calls) + 1 && xv_parser_rv == __CPROVER_return_value && \
+                      (__CPROVER_return_value == 0 || __CPROVER_return_value == -1))
+XV_PARSER_CONTRACT(xcm_addr_parse_tcp, 0, struct xcm_addr_host *, host, uint16_t *, port);
+XV_PARSER_CONTRACT(xcm_addr_parse_btcp, 1, struct xcm_addr_host *, host, uint16_t *, port);
+XV_PARSER_CONTRACT(xcm_addr_parse_ux, 2, char *, name, size_t, capacity);
+XV_PARSER_CONTRACT(xcm_addr_parse_uxf, 3, char *, name, size_t, capacity);
+XV_PARSER_CONTRACT(xcm_addr_parse_utls, 4, struct xcm_addr_host *, host, uint16_t *, port);
+XV_PARSER_CONTRACT(xcm_addr_parse_tls, 5, struct xcm_addr_host *, host, uint16_t *, port);
+XV_PARSER_CONTRACT(xcm_addr_parse_btls, 6, struct xcm_addr_host *, host, uint16_t *, port);
+XV_PARSER_CONTRACT(xcm_addr_parse_sctp, 7, struct xcm_addr_host *, host, uint16_t *, port);
+#define XV_STR4(p, a, b, c, d, e) ((p)[0] == (a) && (p)[1] == (b) && (p)[2] == (c) && (p)[3] == (d) && (p)[4] == (e))
+int xcm_addr_parse_proto(const char *addr_s, char *proto, size_t capacity)
+__CPROVER_requires(capacity >= 6 && __CPROVER_w_ok(proto, capacity))
+__CPROVER_assigns(xv_errno, __CPROVER_object_upto(proto, capacity))
+__CPROVER_ensures(__CPROVER_return_value == 0 || __CPROVER_return_value == -1)
+__CPROVER_ensures(__CPROVER_return_value == 0 ==> ( \
+    xv_proto_sel == 0 ? XV_STR4(proto, 't', 'c', 'p', 0, 0) : xv_proto_sel == 1 ? XV_STR4(proto, 'b', 't', 'c', 'p', 0) : \
+    xv_proto_sel == 2 ? XV_STR4(proto, 'u', 'x', 0, 0, 0) : xv_proto_sel == 3 ? XV_STR4(proto, 'u', 'x', 'f', 0, 0) : \
+    xv_proto_sel == 4 ? XV_STR4(proto, 'u', 't', 'l', 's', 0) : xv_proto_sel == 5 ? XV_STR4(proto, 't', 'l', 's', 0, 0) : \
+    xv_proto_sel == 6 ? XV_STR4(proto, 'b', 't', 'l', 's', 0) : xv_proto_sel == 7 ? XV_STR4(proto, 's', 'c', 't', 'p', 0) : \
+    XV_STR4(proto, 'z', 'z', 0, 0, 0)))
+;
+static bool is_valid_addr(const char *xcm_addr_s, bool require_supported)
+__CPROVER_requires(__CPROVER_is_fresh(xcm_addr_s, 8) && xv_parser_calls >= 0 && xv_parser_calls < 100 && xv_proto_sel >= 0 && xv_proto_sel <= 8)
+__CPROVER_assigns(xv_errno, xv_parser_ran, xv_parser_rv, xv_parser_calls)
+/* PO[C12] is_valid_addr.agrees_with_parser: valid <=> the parser of the address's own transport accepts it; errno is left alone */
+__CPROVER_ensures(__CPROVER_return_value ==> (xv_parser_calls == __CPROVER_old(xv_parser_calls) + 1 && xv_parser_ran == xv_proto_sel && xv_parser_rv == 0))
+__CPROVER_ensures((!__CPROVER_return_value && xv_parser_calls != __CPROVER_old(xv_parser_calls)) ==> (xv_parser_calls == __CPROVER_old(xv_parser_calls) + 1 && xv_parser_ran == xv_proto_sel && xv_parser_rv == -1))
+__CPROVER_ensures(xv_errno == __CPROVER_old(xv_errno))
+/* PO[C12] is_valid_addr.dispatch: the parser of every built-in transport is consulted exactly once (SCTP is not built: only when !require_supported); an unknown transport name is invalid without any parser */
+__CPROVER_ensures(((xv_proto_sel <= 6 || (xv_proto_sel == 7 && !require_supported)) && xv_parser_calls != __CPROVER_old(xv_parser_calls)) ==> xv_parser_calls == __CPROVER_old(xv_parser_calls) + 1)
+__CPROVER_ensures((xv_proto_sel == 8 || (xv_proto_sel == 7 && require_supported)) ==> (!__CPROVER_return_value && xv_parser_calls == __CPROVER_old(xv_parser_calls)))
+__CPROVER_ensures((xv_proto_sel <= 6 && xv_parser_calls == __CPROVER_old(xv_parser_calls)) ==> !__CPROVER_return_value)
+;
 #include "contracts/end.h"
 #endif
